@@ -92,6 +92,7 @@ def main():
         objs = {}     # name -> dict(obj, kind, orig, opath)
         Smat = {}     # token -> S
         cms = []      # open context managers
+        dups = []     # duplicates made inside contexts
         hist = []
         kindof = {"h": "ham", "a": rng.choice(kinds_ctx),
                   "b": rng.choice(kinds_any)}
@@ -221,6 +222,33 @@ def main():
                                           "%.2e)" % (o, st["depth"], err))
                                 failed = True
                                 break
+                            # a duplicate made here (copy / deepcopy go
+                            # through the state of the object as it looks
+                            # outside all contexts) is the same physical
+                            # object: presented alike now, and in the
+                            # original representation once all contexts are
+                            # left
+                            if st["depth"] >= 1 and e["kind"] in (
+                                    "op", "rdm", "sa", "ham"):
+                                import copy as _cp
+                                dup = _cp.deepcopy(e["obj"]) if len(
+                                    dups) % 2 == 0 else _cp.copy(e["obj"])
+                                derr = _relerr(numpy.array(dup.data), got)
+                                ck.case("duplicate-transparent",
+                                        (bi, len(hist)),
+                                        nontrivial=st["depth"] >= 2)
+                                if derr > TOL:
+                                    violation(
+                                        "transparent",
+                                        "a copy of %s made at depth %d is "
+                                        "presented differently from its "
+                                        "source (rel err %.2e)" % (
+                                            o, st["depth"], derr))
+                                    failed = True
+                                    break
+                                # (the source may be overwritten later)
+                                dups.append((dup, o, st["depth"],
+                                             numpy.array(ref_data(o, []))))
                             if cms and cms[-1][1] == o and cms[-1][2]:
                                 off = got - numpy.diag(numpy.diag(got))
                                 dg = numpy.real(numpy.diag(got))
@@ -346,6 +374,20 @@ def main():
                     cm.__exit__(None, None, None)
                 except Exception:
                     pass
+            # every duplicate is back in the representation of its source
+            # outside all contexts
+            if not failed:
+                for dup, o, dd, dref in dups:
+                    try:
+                        derr = _relerr(numpy.array(dup.data), dref)
+                    except Exception as ex:
+                        derr = float("inf")
+                    if derr > TOL:
+                        violation("restored", "a copy of %s made at depth "
+                                  "%d is not in the original representation "
+                                  "after all contexts were left (rel err "
+                                  "%.2e)" % (o, dd, derr))
+                        break
             _reset_manager(man)
         ck.case("behaviour-replay", (bi, tuple(map(tuple, hist))),
                 nontrivial=any(h[0] == "enter" for h in hist),
@@ -473,8 +515,9 @@ def library_traces(ck, qr, numpy):
         progs = []
         # inside the 3x3 context only calls whose managed objects are 3x3
         # (objects of another dimension cannot live in that context)
-        inctx = [n for n in names if n not in ("aggregate_build_mult2",
-                                               "molecule_hamiltonian")]
+        inctx = [n for n in names if n not in (
+            "aggregate_build_mult2", "molecule_hamiltonian",
+            "molecule_excited_density_matrix")]
         for name in names:
             progs.append([("call", name)])
         for name in inctx:
